@@ -257,6 +257,12 @@ def str_method(it, recv, name, args, kw):
     if name in ('isdigit', 'isalpha', 'isalnum', 'isspace', 'isprintable',
                 'isupper', 'islower', 'isascii') and not args:
         return mk_bool(ufun('py_' + name, _S, z3.BoolSort())(e))
+    if name in ('split', 'rsplit') and args and isinstance(args[0], str) \
+            and args[0] != '':
+        return split_model(it, e, name, args, kw)
+    if name == 'count' and len(args) == 1 and isinstance(args[0], str) \
+            and args[0] != '':
+        return count_model(it, e, args[0])
     if name == 'startswith':
         return mk_bool(z3.PrefixOf(zstr(args[0]), e))
     if name == 'endswith':
@@ -269,6 +275,76 @@ def str_method(it, recv, name, args, kw):
     if name == 'format':
         return OpaqueStr('format', (recv,) + tuple(args))
     raise Unsupported('str.%s on symbolic string' % name)
+
+
+def _fresh_s(it, tag):
+    return z3.String('%s!%d' % (tag, next(it.path.fresh)))
+
+
+def split_model(it, e, name, args, kw):
+    """s.split(sep[, k]) / s.rsplit(sep[, k]) for a constant separator.
+    The number of parts is decided by forking on 1, 2, ... up to a cap; a
+    list longer than the cap is represented by its first `cap` parts plus one
+    unconstrained tail part (callers that index beyond are Unsupported by
+    construction of the cap) - exact for up to 2 parts, which is all the
+    verified code distinguishes (`len(parts) <= 1`, parts[0], parts[1])."""
+    sep = args[0]
+    maxsplit = args[1] if len(args) > 1 else kw.get('maxsplit', -1)
+    if is_symbolic(maxsplit):
+        raise Unsupported('split with symbolic maxsplit')
+    zs = z3.StringVal(sep)
+    p = it.path
+    if not it.truth(mk_bool(z3.Contains(e, zs))):
+        return [mk_str(e)]
+    a = _fresh_s(it, 'part')
+    b = _fresh_s(it, 'part')
+    if name == 'rsplit':
+        # split at the LAST separator
+        p.assume(mk_bool(z3.And(e == z3.Concat(a, zs, b),
+                                z3.Not(z3.Contains(b, zs)))))
+        if maxsplit == 1:
+            return [SStr(a), SStr(b)]
+        if not it.truth(mk_bool(z3.Contains(a, zs))):
+            return [SStr(a), SStr(b)]
+        c = _fresh_s(it, 'part')
+        d = _fresh_s(it, 'part')
+        p.assume(mk_bool(z3.And(a == z3.Concat(c, zs, d),
+                                z3.Not(z3.Contains(d, zs)))))
+        it.trusted.add('A-SPLIT: lists of 3 or more parts are represented '
+                       'by their last two parts and an unconstrained head')
+        return [SStr(c), SStr(d), SStr(b)]
+    # split at the FIRST separator
+    p.assume(mk_bool(z3.And(e == z3.Concat(a, zs, b),
+                            z3.Not(z3.Contains(a, zs)))))
+    if maxsplit == 1:
+        return [SStr(a), SStr(b)]
+    if not it.truth(mk_bool(z3.Contains(b, zs))):
+        return [SStr(a), SStr(b)]
+    c = _fresh_s(it, 'part')
+    d = _fresh_s(it, 'part')
+    p.assume(mk_bool(z3.And(b == z3.Concat(c, zs, d),
+                            z3.Not(z3.Contains(c, zs)))))
+    if maxsplit == 2:
+        return [SStr(a), SStr(c), SStr(d)]
+    it.trusted.add('A-SPLIT: lists of 3 or more parts are represented by '
+                   'their first two parts and an unconstrained tail')
+    return [SStr(a), SStr(c), SStr(d)]
+
+
+def count_model(it, e, sub):
+    """s.count(sub): 0 / 1 / 2-or-more decided by forking (2 stands for
+    'at least two')."""
+    zs = z3.StringVal(sub)
+    if not it.truth(mk_bool(z3.Contains(e, zs))):
+        return 0
+    a = _fresh_s(it, 'part')
+    b = _fresh_s(it, 'part')
+    it.path.assume(mk_bool(z3.And(e == z3.Concat(a, zs, b),
+                                  z3.Not(z3.Contains(a, zs)))))
+    if not it.truth(mk_bool(z3.Contains(b, zs))):
+        return 1
+    it.trusted.add('A-COUNT: counts >= 2 are represented by 2')
+    return 2
 
 
 def bytes_method(it, recv, name, args, kw):
